@@ -110,6 +110,7 @@ class Bits:
         self.memo = {}
         self.lin = {}
         self.why_top = []
+        self._active = set()
 
     def width(self, ty):
         if ty in INT_TYS: return INT_TYS[ty][0]
@@ -123,7 +124,15 @@ class Bits:
     # ---------------------------------------------------------------------------------------
     def ev(self, t):
         if t in self.memo: return self.memo[t]
-        r = self._ev(t)
+        if t in self._active:
+            # a merge symbol that depends on itself (loop-carried value): not a bit-vector identity
+            if len(self.why_top) < 20: self.why_top.append("loop-carried value %s" % show(t)[:60])
+            return None
+        self._active.add(t)
+        try:
+            r = self._ev(t)
+        finally:
+            self._active.discard(t)
         self.memo[t] = r
         return r
 
@@ -245,6 +254,12 @@ class Bits:
             if op == 'bitxor': return [bxor(x, y) for x, y in zip(va, vb)]
             if op == 'add': return add_bits(va, vb)
             if op == 'sub': return add_bits(va, [bnot(x) for x in vb], ONE)
+            if op in ('div', 'rem') and not INT_TYS.get(ty, (0, False))[1]:
+                c = as_const(vb)
+                if c is not None and c and (c & (c - 1)) == 0:
+                    n = c.bit_length() - 1
+                    if op == 'div': return va[n:] + [ZERO] * n
+                    return va[:n] + [ZERO] * (w - n)
             if op == 'mul':
                 for x, y in ((va, vb), (vb, va)):
                     c = as_const(y)
